@@ -574,10 +574,15 @@ class BaseNode402(RemoteNode):
             # Nothing to do, e.g. an automatic transition has just taken place
             return True
         try:
-            self.controlword = State402.TRANSITIONTABLE[(from_state, target_state)]
+            code = State402.TRANSITIONTABLE[(from_state, target_state)]
         except KeyError:
             raise ValueError(
                 f'Illegal state transition from {from_state} to {target_state}')
+        if code == State402.CW_SWITCH_ON_DISABLED:
+            # The fault reset needs a rising edge of its bit, which may still
+            # be set from an earlier reset
+            self.controlword = State402.CW_DISABLE_VOLTAGE
+        self.controlword = code
         timeout = time.monotonic() + self.TIMEOUT_SWITCH_STATE_SINGLE
         while self.state != target_state:
             if time.monotonic() > timeout:
